@@ -75,7 +75,43 @@ func Monitor(spec *Spec, tr *Trace) []Finding {
 		return f
 	}
 	if tr.Timeout != "" {
-		return f // inconclusive, decided by the caller
+		// no verdict about termination or reporting (inconclusive, decided by the caller); the prefix-closed safety rules
+		// of C13 hold or fail on the part of the run that was observed whatever happens later
+		if !(m.DefErr || m.Cycle || spec.PreFail) {
+			for gi := 0; gi < ng; gi++ {
+				hist := tr.perTask(gi)
+				for _, t := range m.Tasks {
+					h := hist[t]
+					if h == nil {
+						continue
+					}
+					if R := m.Retries[t]; len(h.enters) > R+1 {
+						add("C13", "task t%d entered %d times with %d retries configured (run cut off by the watchdog: %s)", t, len(h.enters), R, tr.Timeout)
+					}
+					okSeq := map[int]int{}
+					for _, d := range m.Deps[t] {
+						if hd := hist[d]; hd != nil {
+							for _, e := range hd.exits {
+								if e.Outcome == OK {
+									okSeq[d] = e.Seq
+								}
+							}
+						}
+					}
+					for i, en := range h.enters {
+						if i > 0 && i-1 < len(h.exits) && h.exits[i-1].Outcome == OK {
+							add("C13", "task t%d entered again after returning nil (run cut off by the watchdog)", t)
+						}
+						for _, d := range m.Deps[t] {
+							if s, ok := okSeq[d]; !ok || s > en.Seq {
+								add("C13", "task t%d entered (%v) before its dependency t%d returned nil (history %v; run cut off by the watchdog)", t, en, d, spec.Hist)
+							}
+						}
+					}
+				}
+			}
+		}
+		return f
 	}
 	if tr.ParkedAtReturn > 0 {
 		add("C16", "Run returned while %d task function(s) were still executing", tr.ParkedAtReturn)
